@@ -67,7 +67,10 @@ def create_slot(i):
     d = slot_dir(i)
     os.makedirs(d, exist_ok=True)
     write_if_changed(os.path.join(d, "Cargo.toml"), e2e_env.WORKSPACE_TOML % {"repo": vlib.REPO})
-    write_if_changed(os.path.join(d, "app", "Cargo.toml"), e2e_env.APP_TOML)
+    write_if_changed(os.path.join(d, "app", "Cargo.toml"), e2e_env.app_toml())
+    write_if_changed(os.path.join(d, "depk", "Cargo.toml"), e2e_env.DEPK_TOML)
+    if not os.path.exists(os.path.join(d, "depk", "src", "lib.rs")):
+        write_if_changed(os.path.join(d, "depk", "src", "lib.rs"), "")
     write_if_changed(os.path.join(d, "app", "src", "bin", "bp.rs"), render.BP_BIN)
     write_if_changed(os.path.join(d, "driver", "Cargo.toml"), e2e_env.DRIVER_TOML)
     with open(os.path.join(TEMPLATES, "driver_main.rs")) as f:
@@ -102,7 +105,10 @@ def sdk_snapshot(d):
 def write_case(i, spec):
     d = slot_dir(i)
     # defensive: a previous user of the slot (C10's cargo-feature history) may have been killed half-way
-    write_if_changed(os.path.join(d, "app", "Cargo.toml"), e2e_env.APP_TOML)
+    write_if_changed(os.path.join(d, "Cargo.toml"), e2e_env.WORKSPACE_TOML % {"repo": vlib.REPO})
+    write_if_changed(os.path.join(d, "app", "Cargo.toml"), e2e_env.app_toml((render._dep(spec) or {}).get("alias")))
+    write_if_changed(os.path.join(d, "depk", "Cargo.toml"), e2e_env.DEPK_TOML)
+    write_if_changed(os.path.join(d, "depk", "src", "lib.rs"), render.render_dep(spec))
     try:
         with open(os.path.join(d, "sdk", "Cargo.toml")) as f:
             if "extdep" in f.read():
